@@ -219,6 +219,14 @@ def gen_world(rng):
                 inv['anns'] = [('virtual', [via])]
             blocks.append((method, inv, render_block(method, inv, ['self', 'x'])))
         vf[slot] = dict(own=own, invoker_block=inv, method=method)
+    if rng.random() < 0.4:
+        # (virtual SLOT) on a function of the class that is not a method: it cannot be the invoker, and its block is not the
+        # virtual method's
+        syms.append(S.func('foo_obj_util', S.td('gint'), [S.param('x', S.td('gint'))], line=332))
+        ub = gen_block(rng)
+        ub['skip'] = False
+        ub['anns'] = [('virtual', ['lonely'])]
+        blocks.append(('foo_obj_util', ub, render_block('foo_obj_util', ub, ['x'])))
     return dict(syms=syms, blocks=blocks, elems=elems, dump=dump, fnames=fnames, renames=renames, mnames=mnames, mrenames=mrenames, vfuncs=vf)
 
 
